@@ -336,6 +336,19 @@ Theorem C14_view_order_independence_refuted_tier_inversion :
 Proof. exact view_order_independence_refuted_tier_inversion. Qed.
 Print Assumptions C14_view_order_independence_refuted_tier_inversion.
 
+(* D14: a deletion that resolves a double claim was blocked for ever by that very double claim
+   (the members of the HyperNode being deleted were released only after the rebuild of its
+   ancestors, which failed on them); now they are released first *)
+Theorem C14_d14_blocked_delete_refuted :
+  let e := mkEnv [] [] in
+  let evs := [EUpd (mkObj 2 1 [MHyper 4]); EUpd (mkObj 3 3 [MHyper 4; MHyper 2]); EDel 2; EDel 2]%positive in
+  forest_ok [mkObj 3 3 [MHyper 4; MHyper 2]]%positive = true /\
+  (s_ready (snd (run_round8 e evs)) = false /\ aget 2%positive (s_hn (snd (run_round8 e evs))) <> None) /\
+  (s_ready (snd (run e evs)) = true /\
+   exists i, aget 3%positive (s_hn (snd (run e evs))) = Some i /\ i_children i = [4%positive]).
+Proof. exact d14_blocked_delete_refuted. Qed.
+Print Assumptions C14_d14_blocked_delete_refuted.
+
 (* --- still refuted at full strength on the repaired code (known finding D7): a cycle between
    two HyperNodes of the same tier stays unreported --- *)
 Theorem C14_bad_membership_not_ready_refuted : exists evs,
